@@ -4,7 +4,7 @@
   in : {"calls": [call…], "sites": [[cell, site key]…], "init": [[cell, name]…], "schedules": [[tid…]…]}
        call = {"k":"homog","cell":c,"name":n,"initW":b,"elems":[[v,ok]…]} | {"k":"set"|"iset","cell":c,"name":n,"elems":…}
             | {"k":"map","kc":c,"vc":c,"name":n,"entries":[[[k,ok],[v,ok]]…]} | {"k":"pos","base":c,"name":n,"n":k,"elems":…}
-            | {"k":"wrap","kind":"allOf"|"anyOf"|"oneOf"|"notField","name":n,"v":v,"opts":[[cell,ok]…]}
+            | {"k":"wrap","kind":"allOf"|"anyOf"|"oneOf"|"notField"|"allOfThrough"|"oneOfThrough","name":n,"v":v,"opts":[[cell,ok]…]}
             | {"k":"nest","cell":c,"name":n,"kind":…,"elems":[[v,[[cell,ok]…]]…]}
        a schedule lists thread ids at EVENT granularity: entry `t` = thread `t` runs up to and including its next step
        that touches a shared cell or starts a temp structure (what the harness observes); after the listed entries every
@@ -35,6 +35,8 @@ def wkindOf : String → Except String WKind
   | "anyOf" => pure WKind.anyOf
   | "oneOf" => pure WKind.oneOf
   | "notField" => pure WKind.notField
+  | "allOfThrough" => pure WKind.allOfThrough
+  | "oneOfThrough" => pure WKind.oneOfThrough
   | s => throw s!"unknown wrapper kind {s}"
 
 def optOfJson (o : Json) : Except String (Nat × Bool) := do
